@@ -1033,6 +1033,9 @@ class Interp(object):
             try:
                 old = env.lookup(nm)
             except KeyError:
+                if nm in spec.havoc:
+                    # first assigned inside the loop body: the contract supplies a MaybeUnbound value
+                    env.assign(nm, spec.havoc[nm](self, None))
                 continue
             if nm in spec.havoc:
                 env.assign(nm, spec.havoc[nm](self, old))
@@ -1142,7 +1145,11 @@ class Interp(object):
     # ---------------------------------------------------------------- expressions
     def lookup_name(self, name, env):
         try:
-            return env.lookup(name)
+            v = env.lookup(name)
+            if isinstance(v, MaybeUnbound):
+                self.ctx.oblige("safety/local-variable-is-bound (%s)" % name, v.cond)
+                return v.value
+            return v
         except KeyError:
             raise PyRaise(ExcVal('NameError', (name,), {'NameError', 'UnboundLocalError', 'Exception', 'BaseException'}))
 
